@@ -227,6 +227,7 @@ var scenarios = []struct {
 	{"chain=m,upd=alt,m", "m", []string{"alt", "m"}, "m"},
 	{"chain=m,upd=m,alt", "m", []string{"m", "alt"}, "alt"},
 	{"chain=m,sub=alt", "m", nil, "alt"},
+	{"chain=alt,upd=m,alt", "alt", []string{"m", "alt"}, "m"}, // the submitted hash was current once, is not any more
 }
 
 func altManifest(m manifest.Manifest) manifest.Manifest {
